@@ -17,6 +17,7 @@ import mir
 import skel
 import vlib
 from e2run import E2Session
+from vlib import Harness
 
 LEVEL = 'model_checking'
 Q = 8380417
@@ -93,6 +94,23 @@ def run(run, scr, tier, seed, only=None):
         open_sites = site_inventory(run, sess, funcs)
     except e2.Refuse as ex:
         run.inconclusive.append('E2 refused: ' + str(ex))
+    # decoders on arbitrary bytes: the hint-section decoder with all of Kani's default checks (index bounds, overflow, debug_assert)
+    win = ['c08_hint_window_0', 'c08_hint_window_2', 'c08_hint_window_4'][seed % 3]
+    hs = [Harness('verif_kani::c08::' + win, 'C13', timeout=2400, loop_rules=[(r'hint_bit_unpack::<2>', 12)],
+                  bounds='hint_bit_unpack::<2>(omega = 8): both count bytes and a 4-byte index window symbolic; every index / overflow / debug assertion of the real decoder')]
+    if tier == 'thorough':
+        hs += [Harness('verif_kani::c10::c10_bit_unpack_eta2', 'C13', timeout=1800, bounds='bit_unpack on every 96-byte string, all default checks')]
+    kres = vlib.run_kani(scr, hs, jobs=2)
+    decoder_panics = []
+    for r in kres:
+        if r.status == 'failed':
+            own = [(n, d, l) for (n, d, l) in r.failed if not re.match(r'^C\d\d', d)]
+            if own:
+                r.detail = 'panic-class checks failed: ' + '; '.join(f'{d} @ {l}' for _, d, l in own)[:300]
+                decoder_panics.append(r)
+            else:
+                r.status = 'success'; r.detail = 'only functional (C08-tagged) assertions failed; no panic-class check failed'
+    run.add_kani_results(kres)
     oc, locs, msgs, out = native(scr)
     run.add_query({'name': 'native hostile-input workload through the public API (dev profile: debug assertions + overflow checks), all three sets', 'engine': 'native replay workload', 'verdict': 'holds' if oc == 'pass' else ('sat' if oc == 'fail' else 'unknown'), 'panic_locations': locs, 'trivial': True}, core=False)
     if oc == 'error':
@@ -108,6 +126,15 @@ def run(run, scr, tier, seed, only=None):
         key = 'panic:' + f + ':' + re.sub(r'\s+', ' ', text)[:60]
         path = vlib.save_replay('C13', 'hostile', {'property': 'C13', 'kind': 'hostile', 'location': loc, 'source_line': text, 'cases': [m for m in msgs][:6]})
         run.violation(key, f'public API panics at {loc} (`{text}`) on accepted hostile input: {msgs[:2]}', path)
+    if decoder_panics and not locs:
+        # confirm through the structured codec differential (hostile hint sections at the real (K, omega))
+        from props import c08
+        res8, msgs8 = c08.native(scr)
+        path = vlib.save_replay('C13', 'decoder', {'property': 'C13', 'kind': 'decoder', 'harness': [r.h.name for r in decoder_panics], 'detail': [r.detail for r in decoder_panics], 'native': res8})
+        if 'fail' in res8.values():
+            run.violation('panic:decoder:' + decoder_panics[0].detail[:60], f'decoder panics on hostile bytes: {decoder_panics[0].detail}; native: {msgs8[:2]} {res8}', path)
+        else:
+            run.inconclusive.append(f'decoder harness reports a reachable panic ({decoder_panics[0].detail}) that the native codec workload does not reproduce')
     reported = ' '.join(locs)
     for (sname, fn, bb, msg, verdict) in open_sites:
         if not locs:
@@ -119,6 +146,15 @@ def run(run, scr, tier, seed, only=None):
 
 
 def replay(run, scr, path):
+    p = json.load(open(path))
+    if p.get('kind') == 'decoder':
+        from props import c08
+        res8, msgs8 = c08.native(scr)
+        vlib.log(f'replay {path}: {res8} {msgs8[:3]}')
+        if 'fail' in res8.values():
+            vlib.log(f'VIOLATION property=C13 replay={path}')
+            return 1
+        return 0 if set(res8.values()) == {'pass'} else 2
     oc, locs, msgs, out = native(scr)
     vlib.log(f'replay {path}: {oc} {locs} {msgs[:3]}')
     if oc == 'fail':
